@@ -2,18 +2,22 @@
 
 package ingress
 
+import "math/big"
+
 // White-box access for the C09 check (mounted with -overlay, never committed).
 
-// VerifNonceSnapshot returns the nonce cache of a as nonce -> expiry (Unix ns).
-func VerifNonceSnapshot(a *HMACAuth) map[string]int64 {
-	out := map[string]int64{}
+// VerifNonceSnapshot returns the nonce cache of a as nonce -> expiry (Unix ns, exact decimal: an
+// expiry beyond year 2262 does not fit int64 and Time.UnixNano would wrap it in the harness).
+func VerifNonceSnapshot(a *HMACAuth) map[string]string {
+	out := map[string]string{}
 	if a == nil || a.nonce == nil {
 		return out
 	}
 	a.nonce.mu.Lock()
 	defer a.nonce.mu.Unlock()
 	for k, exp := range a.nonce.m {
-		out[k] = exp.UnixNano()
+		ns := new(big.Int).Mul(big.NewInt(exp.Unix()), big.NewInt(1000000000))
+		out[k] = ns.Add(ns, big.NewInt(int64(exp.Nanosecond()))).String()
 	}
 	return out
 }
